@@ -60,13 +60,11 @@ func (env *Env) global(o *types.Var) Val {
 	}
 	t := Term{name, sort}
 	c.declOnce(fmt.Sprintf("(declare-const %s %s)", name, sort))
-	if !env.globalInit {
-		key := "gfacts:" + name
-		if _, done := env.st.spec[key]; !done {
-			env.st.spec[key] = Val{}
-			for _, f := range c.globalFacts(o, t) {
-				env.st.Assume(f)
-			}
+	key := "gfacts:" + name
+	if _, done := env.st.spec[key]; !done {
+		env.st.spec[key] = Val{}
+		for _, f := range c.globalFacts(o, t) {
+			env.st.Assume(f)
 		}
 	}
 	return Val{T: t, GoT: o.Type()}
